@@ -650,11 +650,39 @@ def gen_simple(rng, n):
     corpus = [('lc', 1, 0x20, 'i'), ('lc', 1, 0xFF, 'i'), ('lc', 1, 0xFF, 'a'), ('lc', 1, 0x12, 'i'), ('lc', 2, 0x12, 'i'), ('lc', 2, 0x20, 'i'), ('lc', 1, 0x100, 'a'),
               ('lc', 2, 0xFFFFFF, 'a'), ('lc', 2, 0x1000000, 'a'), ('lc', 2, 0x1000000 + 500000, 'a'), ('lc', 2, 0xFFFFFF, 's'), ('lc', 2, 0x1000000, 's'), ('lc', 1, 500000, 'a'),
               ('lc', 2, 500000, 'f'), ('lc', 1, 500000, 's'), ('lc', 1, 123456, 's'), ('lc', 3, None, 'f'), ('lc', 3, 9600, 'f'), ('lc', 1, None, 'f')]
-    for i in range(n):
+    # boundary corpus (deterministic, every edition): each integer argument of each simple entry point at the ends of its domain and one step outside,
+    # every optional parameter absent / 0 / largest / one too large - so that a boundary slip does not depend on what a random stream happens to draw
+    bcorpus = []
+    for std_ in (2006, 2013, 2020):
+        for v in (0, 1, 0x7F, 0x80, -1):
+            bcorpus += [(('cs', v), std_), (('er', v), std_), (('cd', v, None), std_), (('cd', v, b''), std_)]
+        for lvl in (0, 1, 2, 0x7D, 0x7E, 0x7F, 0x80):
+            bcorpus += [(('rs', lvl, b''), std_), (('sk', lvl, b'\x01'), std_)]
+        for rid in (0, 0xFFFF, 0x10000, -1):
+            for ct in (0, 1, 0x7F, 0x80):
+                bcorpus.append((('rc', rid, ct, None), std_))
+        for sq in (0, 0xFF, 0x100, -1):
+            bcorpus += [(('td', sq, None), std_), (('td', sq, b''), std_)]
+        for g in (0, 0xFFFFFF, 0x1000000, -1):
+            for ms in (None, 0, 1, 0xFF, 0x100, -1):
+                bcorpus.append((('cl', g, ms), std_))
+        for ct in (0, 3, 4, 5, 0x7F, 0x80):
+            for node in (None, 0, 0xFFFF, 0x10000, -1):
+                bcorpus.append((('cc', ct, 0x01, node), std_))
+        for t in (0, 1, 4, 0x7F, 0x80):
+            bcorpus += [(('at', t, None), std_), (('at', t, b''), std_), (('at', t, b'\x01\x02'), std_)]
+        bcorpus += [(('te', None), std_), (('te', b''), std_), (('tp',), std_)]
+    total = len(corpus) + len(bcorpus) + n
+    for i in range(total):
         std = rng.choice([2006, 2013, 2020])
-        e = corpus[i] if i < len(corpus) else hist.rand_entry(rng, std, allow_invalid=True)
-        if i >= len(corpus) and rng.random() < 0.25:      # push one integer out of range / to a boundary
-            e = mutate_entry(rng, e)
+        if i < len(corpus):
+            e = corpus[i]
+        elif i < len(corpus) + len(bcorpus):
+            e, std = bcorpus[i - len(corpus)]
+        else:
+            e = hist.rand_entry(rng, std, allow_invalid=True)
+            if rng.random() < 0.25:      # push one integer out of range / to a boundary
+                e = mutate_entry(rng, e)
         ok = in_domain_simple(e, std)
         canon = canon_simple(e, std) if ok else None
         line = 'enc e=simple entry=%s std=%d' % (hist.entry_str(e), std)
